@@ -8,7 +8,7 @@ THEOREMS = ["C11_first_match_wins", "C11_undefined_iff", "C11_argument_order", "
 ASSUMPTIONS = ["CPython frame objects (f_locals / f_globals of the frame k levels up) are modelled as a stack of "
                "(locals, globals) pairs; the correspondence builds real nested callers",
                "the built-in scope is exercised by temporarily adding entries to formulae.transforms.TRANSFORMS"]
-RULE = ("exhaustive: all 2^5 subsets of scopes defining the name x role (argument, callee, dotted callee, doubly and triply dotted callee with decoy siblings, "
+RULE = ("exhaustive: all 2^5 subsets of scopes defining the name x role (argument, callee, dotted callee, doubly and triply dotted callee with decoy siblings, a callee named like a Python built-in (round), "
         "backquoted argument, keyword-argument value (also when the keyword label IS the name), argument of a nested call) x env depth 0..3 (and one depth beyond the stack) through four nested callers "
         "with their own locals and globals; non-trivial = every case; distinct = case")
 EXHAUSTIVE = {"quick": True, "thorough": True}
@@ -22,7 +22,7 @@ VAL = {"data": 1.0, "builtin": 2.0, "extra": 5.0}
 def gen(rng, tier):
     cases = []
     # kwarg: the name is the VALUE of a keyword argument; nested: it is an argument of a call inside a call
-    for role in ("arg", "callee", "dotted", "dotted2", "dotted3", "bq", "kwarg", "kwarg-same", "nested"):
+    for role in ("arg", "callee", "callee-py", "dotted", "dotted2", "dotted3", "bq", "kwarg", "kwarg-same", "nested"):
         for r in range(0, 6):
             for subset in itertools.combinations(SCOPES, r):
                 if role == "bq" and "local" in subset:
@@ -57,7 +57,7 @@ def nontrivial(c, mo, obs):
 
 def _name(c):
     return {"arg": "nm", "callee": "nm", "dotted": "mod", "bq": "my nm", "arg-none": "nm", "kwarg": "nm",
-            "nested": "nm", "dotted2": "mod", "dotted3": "mod", "kwarg-same": "nm", "enc": "Sum"}[c["role"]]
+            "nested": "nm", "dotted2": "mod", "dotted3": "mod", "kwarg-same": "nm", "enc": "Sum", "callee-py": "round"}[c["role"]]
 
 
 def expected(c):
@@ -65,7 +65,7 @@ def expected(c):
     if c["depth"] >= NFRAMES:
         return ["err", "Value"]
     order = ["data", "builtin", "local", "global", "extra"]
-    if c["role"] in ("callee", "dotted", "dotted2", "dotted3"):
+    if c["role"] in ("callee", "callee-py", "dotted", "dotted2", "dotted3"):
         order = order[1:]
     if c["role"] == "enc":
         return ["ok", "1.0"]
@@ -172,7 +172,7 @@ def _run(c):
     if role == "enc":
         cols["gq"] = ["r", "p", "q", "r", "p"]
     df = pd.DataFrame(cols)
-    formula = {"arg": "y ~ I(nm)", "callee": "y ~ nm(x)", "dotted": "y ~ mod.nm(x)", "dotted2": "y ~ mod.sub.nm(x)", "dotted3": "y ~ mod.sub.deep.nm(x)", "bq": "y ~ I(`my nm`)",
+    formula = {"arg": "y ~ I(nm)", "callee": "y ~ nm(x)", "callee-py": "y ~ round(x)", "dotted": "y ~ mod.nm(x)", "dotted2": "y ~ mod.sub.nm(x)", "dotted3": "y ~ mod.sub.deep.nm(x)", "bq": "y ~ I(`my nm`)",
                "arg-none": "y ~ sel_(x, nm)", "kwarg": "y ~ keep_(x, w=nm)", "kwarg-same": "y ~ same_(x, nm=nm)", "enc": "y ~ 0 + C(gq, Sum)",
                "nested": "y ~ keep_(x, w=keep_(x, nm))"}[role]
     extra = {name: val(VAL["extra"], "extra")} if "extra" in d else None
